@@ -200,7 +200,7 @@ class C09(PropertyCheck):
         "QipVerif.C09.ctor_controlled_anatomy", "QipVerif.C09.ctor_chain_hands_on", "QipVerif.C09.ctor_request_honoured",
         "QipVerif.C09.ctor_plain_table", "QipVerif.C09.ctor_plain_anatomy", "QipVerif.C09.ctor_fixed_table",
         "QipVerif.C09.ctor_fixed_refuses", "QipVerif.C09.circuit_path_history_independent",
-        "QipVerif.C09.ctor_controlled_expanded",
+        "QipVerif.C09.ctor_controlled_expanded", "QipVerif.C09.fresh_circuit_resolves_library",
         "QipVerif.C09.ctor_circuit_agrees", "QipVerif.C09.ctor_controlled_matrix", "QipVerif.C09.ctor_controlled_value_refused",
     ]
     base_theorems = list(theorems)
@@ -235,7 +235,12 @@ class C09(PropertyCheck):
                   "controls + targets)) is Tg.embed (ctrlN m v U) on the controls in LISTED order, first listed most significant — "
                   "the operator controlled_gate returns (ctor_controlled_expanded; 4.3k placements x values vs the model and 7k "
                   "requests vs an independent listed-order semantics per run, through get_qobj, propagators, compute_unitary, by "
-                  "name and the function). These hold for "
+                  "name and the function); a FRESH circuit (QubitCircuit(N) without user_gates: regenerated rule new-dict-per-circuit — "
+                  "immutable parameter defaults, containers created per object, the only store into user_gates outside __init__ is "
+                  "the inheritance loop of add_circuit) resolves every library name to the library matrix after ANY history of "
+                  "constructions, item assignments and add_circuit calls on other circuit objects in the process "
+                  "(fresh_circuit_resolves_library over the heap model CircHeap; 176 cross-object histories per run vs the model "
+                  "and vs an independent bookkeeping oracle, gate objects of one class independent). These hold for "
                   "the source after the fixes C09-2 (CPHASE dropped control_value) and C09-3 (TOFFOLI/FREDKIN/generic Gate ignored "
                   "it), found here and applied. "
                   "Tie: float rendering of the same syntax trees vs the functions on a 15-angle "
@@ -429,6 +434,10 @@ class C09(PropertyCheck):
         #     get_qobj(dims=[2]*N), every ordered placement of 1..3 controls + target on 3 and 4 qubits x every value
         cc.correspondence_expand(ctx, res, drv)
 
+        # (h) cross-OBJECT histories in one process: model CircHeap (circuit objects and the dictionary objects they hold; rule
+        #     Gen.G.circuitDefaultUserGates) vs implementation — which matrix every circuit of the history reports for a name
+        cc.correspondence_hist(ctx, res, drv)
+
     def _corr_ctrl(self, ctx, res, drv):
         import qutip
         from qutip_qip.operations import controlled_gate
@@ -557,6 +566,10 @@ class C09(PropertyCheck):
             return cc.oracle_multi(w)
         if w["kind"] == "expand":
             return cc.oracle_expand(w)
+        if w["kind"] == "hist":
+            return cc.oracle_hist(w)
+        if w["kind"] == "fresh":
+            return cc.oracle_fresh_gate(w)
         if w["kind"] == "ctrl-malformed":
             return False, "malformed request to controlled_gate (outside the property); only the refusal kind is compared"
         return False, "unknown witness"
@@ -580,6 +593,10 @@ class C09(PropertyCheck):
     def _ctor_sweep(self, rng_seed=0, thorough=False):
         """constructor requests: every class / path, well-formed placements, every control value (no request class is left
         out; the sweep does not depend on the translator or the model)"""
+        for w in cc.hist_requests(random.Random(rng_seed), thorough):
+            f, det = cc.oracle_hist(w)      # first: state leaking between circuit objects would poison every later stream
+            if f:
+                yield w, det
         for w in cc.sweep_requests():
             f, det = cc.oracle(w)
             if f:
@@ -590,6 +607,10 @@ class C09(PropertyCheck):
                 yield w, det
         for w in cc.expand_requests(random.Random(rng_seed), thorough):
             f, det = cc.oracle_expand(w)
+            if f:
+                yield w, det
+        for w in cc.fresh_gate_requests():
+            f, det = cc.oracle_fresh_gate(w)
             if f:
                 yield w, det
 
